@@ -5,6 +5,8 @@ import pickle
 import shutil
 import tempfile
 
+from hypothesis import strategies as st
+
 from .. import adapter, genmod
 from ..compare import exact
 from ..interp import deep_copy
@@ -97,6 +99,32 @@ def check(ctx, case):
         shutil.rmtree(work, ignore_errors=True)
 
 
+def recompile_check(ctx, cases):
+    """history inside one directory: program 1 is compiled and linked, then program 2 - other sources under the
+    same module names - is compiled over it and linked with a new Linker; it must behave like ITS single module"""
+    work = tempfile.mkdtemp(prefix="c16r_")
+    old = os.getcwd()
+    os.chdir(work)
+    try:
+        for k, case in enumerate(cases):
+            ctx.count()
+            single = adapter.compile_src(case.single_source())
+            if not single.ok:
+                ctx.discard("single-module-program-not-accepted:" + single.stage)
+                return
+            ref_prog = adapter.link([single.ir])
+            ref = run_program(ref_prog, case.entry, case.inputs)
+            if all(r[0] != "ok" for r in ref):
+                ctx.discard("reference-fails-on-every-input")
+                return
+            _check_in_dir(ctx, case, ref, ref_prog)
+            if k >= 1:
+                ctx.label("recompiled-in-place")
+    finally:
+        os.chdir(old)
+        shutil.rmtree(work, ignore_errors=True)
+
+
 def _load(name):
     with open(name + ".nslir", "rb") as fh:
         return pickle.load(fh)
@@ -158,6 +186,22 @@ def _check_in_dir(ctx, case, ref, ref_prog):
     if nontrivial and any(r[0] == "ok" for r in got):
         ctx.nontrivial(case.show())
     ctx.label("root-only-linked")
+    # (a') the same with the linker's own default loader (`Linker()` as nslr.py and library users create it)
+    try:
+        with adapter.quiet():
+            dl = LinearIR.Linker()
+            dl.AddModule(_load(root))
+            dprog = dl.Link()
+    except Exception as e:
+        ctx.fail("default-loader-link-fails|" + adapter.exc_sig(e), "Linker() with its default loader fails where an explicit "
+                 "FilesystemModuleLoader links: %r\n%s" % (e, case.show()), case)
+        return
+    dgot = run_program(dprog, case.entry, case.inputs)
+    if not same_runs(ref, dgot):
+        ctx.fail("behaviour-differs|default-loader", "program linked by Linker() (default loader) behaves differently from the single "
+                 "module: %r vs %r\n%s" % (dgot, ref, case.show()), case)
+        return
+    ctx.label("default-loader-linked")
     # (b) every subset containing the root, in every order
     others = names[:-1]
     budget = 0
@@ -283,6 +327,9 @@ def cli_worker_factory(R, n_cases):
 def run(R):
     R.custom("command-line", cli_worker_factory(R, R.pick(2, 25)), nworkers=16)
     R.require("cli-run")
+    R.hyp("recompile-in-place", st.lists(genmod.modules_case(n_inputs=1), min_size=2, max_size=2), recompile_check,
+          examples=R.pick(15, 300))
+    R.require("recompiled-in-place")
     R.hyp("partitions", genmod.modules_case(), check, examples=R.pick(40, 800), shrink="hyp")
     for l in ("root-only-linked", "overload-set-split-over-modules", "struct-type-shared-across-modules", "shape:diamond", "shape:chain3", "import-not-first", "duplicate-definition-checked"):
         R.require(l)
